@@ -65,6 +65,7 @@ ARet   == ~dead /\ Room(1) /\ Add(<<[o |-> "return"]>>, stk, TRUE, 0, 0)
 AUnr   == ~dead /\ Room(1) /\ Add(<<[o |-> "unreachable"]>>, stk, TRUE, 0, 0)
 AThrow == ~dead /\ Room(1) /\ Add(<<[o |-> "throw"]>>, stk, TRUE, 0, 0)
 ARCall == ~dead /\ Room(1) /\ Add(<<[o |-> "rcall", k |-> 3]>>, stk, TRUE, 0, 0)
+ARCallI == ~dead /\ Room(2) /\ Add(<<[o |-> "const", v |-> 0], [o |-> "rcalli"]>>, stk, TRUE, 0, 0)
 
 AFinish ==       \* the function's final end
     /\ ~done /\ Depth = 0 /\ Len(body) + 1 <= MaxLen
@@ -145,7 +146,7 @@ APlan2 ==
          /\ plan' = Append(plan, e)
     /\ UNCHANGED <<body, stk, dead, nop, ncond, done>>
 
-Next == AOp \/ ABlock \/ ATry \/ ALoop \/ AIf \/ AElse \/ AEnd \/ ABr \/ ABrIf \/ ABrTable \/ ABrOn \/ ARet \/ AUnr \/ AThrow \/ ARCall
+Next == AOp \/ ABlock \/ ATry \/ ALoop \/ AIf \/ AElse \/ AEnd \/ ABr \/ ABrIf \/ ABrTable \/ ABrOn \/ ARet \/ AUnr \/ AThrow \/ ARCall \/ ARCallI
         \/ AFinish \/ APlan1 \/ APlan2
 Spec == Init /\ [][Next]_vars
 
